@@ -309,7 +309,10 @@ class Environment:
 
         for event in events_to_unpause:
             self._paused_events.remove(event)
-            event.time += self.now - event.paused_at
+            # Shifted time is never before the current time (floating
+            # point rounding of the sum could otherwise move the clock
+            # backwards by one unit of least precision).
+            event.time = max(self.now, event.time + (self.now - event.paused_at))
             bisect.insort(self._events, event)
 
     def add_datapoint(self, list_label, sub_label, datapoint):
